@@ -141,7 +141,8 @@ std::u8string World::word(int64_t sel, int64_t style)
                                            u8"", u8"Java", u8"stdcall", u8"int", u8"default", u8"this", u8"a_rather_long_identifier_name_42",
                                            u8"0", u8"1", u8"42", u8"3.14", u8"'c'", u8"\"str\"" };
    const uint64_t u = uint64_t(sel);
-   switch (uint64_t(style) % 3) {
+   switch (uint64_t(style) % 4) {
+   case 3: { std::u8string w; for (uint64_t k = 0, v = u * 2654435761u + 11; k < 1 + u % 7; ++k, v = v * 6364136223846793005ull + 1442695040888963407ull) w += char8_t((v >> 33) & 0xff); return w; }   // all byte values
    case 0: return fixed[u % (sizeof fixed / sizeof fixed[0])];
    case 1: { std::u8string w = u8"id"; w += char8_t('a' + u % 26); w += char8_t('0' + (u / 26) % 10); return w; }
    default: { std::u8string w; for (uint64_t k = 0, v = u; k < 1 + u % 9; ++k, v = v * 31 + 7) w += char8_t(33 + v % 90); return w; }
@@ -314,6 +315,54 @@ void World::reg_region(impl::Region& r, const ipr::Region* parent, Ref owner, in
    const int saved = current_op;
    reg_ref(nref(r), e, true, &observe_node_fn);
    current_op = saved;
+}
+
+bool World::is_udt_category(int cat)
+{
+   using ipr::Category_code;
+   return cat == int(Category_code::Class) or cat == int(Category_code::Union) or cat == int(Category_code::Enum)
+       or cat == int(Category_code::Namespace) or cat == int(Category_code::Closure);
+}
+
+bool World::region_sealed(const ipr::Region& r)
+{
+   const ipr::Region* cur = &r;
+   for (int hops = 0; cur != nullptr and hops < 64; ++hops) {
+      auto it = region_models.find(cur);
+      if (it == region_models.end()) return false;
+      if (it->second.owner != nullptr and it->second.owner != ABSENT and sealed_bodies.count(it->second.owner)) return true;
+      cur = it->second.parent;
+   }
+   return false;
+}
+
+bool World::can_seal_as_body(const ipr::Type& udt, uint32_t user_born)
+{
+   // Termination argument for printing (DESIGN.md, C17/C18): every link the harness creates goes from a node to an
+   // older one, except (i) a user-defined type -> its members and (ii) a body printer (a typedecl initialised with the
+   // type, or a Forall whose target it is) -> the type.  If every member is older than every body printer and the
+   // body takes no further members, a potential (birth step; for a body: the birth of its first printer minus 1/2)
+   // strictly decreases along every edge the printer follows, so printing terminates on every graph the harness builds.
+   for (auto& kv : region_models) {
+      if (kv.second.owner != nref(udt)) continue;
+      for (auto rg : regions.v) {
+         if (static_cast<const ipr::Region*>(rg) != kv.first) continue;
+         auto sm = scopes.find(&rg->scope);
+         if (sm == scopes.end()) continue;
+         for (auto& de : sm->second.decls) {
+            Rec* rc = rec(nref(*de.decl));
+            if (rc == nullptr or rc->born >= user_born) return false;
+         }
+      }
+   }
+   for (auto& h : homos) {
+      if (h.owner_node != static_cast<const ipr::Node*>(&udt)) continue;
+      for (auto& de : h.decls) {
+         Rec* rc = rec(nref(*de.decl));
+         if (rc == nullptr or rc->born >= user_born) return false;
+      }
+   }
+   return true;
 }
 
 std::vector<const ipr::Decl*> World::decl_set_of(const ipr::Decl& d)
